@@ -9,6 +9,7 @@
 //	out    interop: library stream decoded by the reference decoder of the format
 //	in     interop: reference-encoded stream decoded by the library reader
 //	ovl    overlapping writers / readers (all opened before use) after each disturbance
+//	cfg    Codec values of one kind with different options interleaved: each emits its own pristine bytes
 //	hist   history independence of pooled readers/writers (after normal and after failed streams)
 //	srcerr underlying reader fails after k bytes: error or the full payload, never wrong data
 //	stress many goroutines opening/closing pooled readers and writers in tight loops
@@ -29,6 +30,7 @@ import (
 	"io"
 	"math/rand"
 	"os"
+	"os/exec"
 	"strconv"
 	"strings"
 	"sync"
@@ -523,6 +525,106 @@ func overlapping(r *rand.Rand, c compress.Codec, name string, ps [][]byte) strin
 	return res
 }
 
+// ---------------------------------------------------------------- configurations of one codec kind
+
+// codecOfSpec builds a fresh Codec VALUE for a textual configuration: gzip:<level> zstd:<level>
+// snappy:<compression 0..3>:<framing 0|1> lz4
+func codecOfSpec(spec string) compress.Codec {
+	f := strings.Split(spec, ":")
+	atoi := func(i int) int { v, _ := strconv.Atoi(f[i]); return v }
+	switch f[0] {
+	case "gzip":
+		return &gzip.Codec{Level: atoi(1)}
+	case "zstd":
+		return &zstd.Codec{Level: atoi(1)}
+	case "snappy":
+		return &snappy.Codec{Compression: snappy.Compression(atoi(1)), Framing: snappy.Framing(atoi(2))}
+	case "lz4":
+		return &lz4.Codec{}
+	}
+	return nil
+}
+
+func configSpecs() map[string][]string {
+	m := map[string][]string{
+		"gzip": {"gzip:0", "gzip:1", "gzip:6", "gzip:9", "gzip:-2"},
+		"zstd": {"zstd:0", "zstd:1", "zstd:7", "zstd:12"},
+		"lz4":  {"lz4"},
+	}
+	for c := 0; c < 4; c++ {
+		for f := 0; f < 2; f++ {
+			m["snappy"] = append(m["snappy"], fmt.Sprintf("snappy:%d:%d", c, f))
+		}
+	}
+	return m
+}
+
+// pristine: what a process that never used any codec before produces for this configuration and payload (one
+// Write call): the driver re-executes itself, `c16 pristine <spec>`, payload on stdin, compressed bytes on stdout
+func pristine(spec string, p []byte) ([]byte, error) {
+	cmd := exec.Command(os.Args[0], "pristine", spec)
+	cmd.Stdin = bytes.NewReader(p)
+	return cmd.Output()
+}
+
+func pristineMain(spec string) {
+	p, _ := io.ReadAll(os.Stdin)
+	c := codecOfSpec(spec)
+	if c == nil {
+		os.Exit(2)
+	}
+	s, err := compressChunks(c, p, []int{len(p)})
+	if err != nil {
+		os.Exit(3)
+	}
+	os.Stdout.Write(s)
+}
+
+// configs: Codec values of one kind with different options used interleaved in one process; the output of each
+// must be that configuration's own pristine output whatever the others put into the pools
+func configs(r *rand.Rand) {
+	kinds := []string{"gzip", "snappy", "zstd", "lz4"}
+	specs := configSpecs()
+	for _, kind := range kinds {
+		p := payload(r, 2, 40000+r.Intn(30000))
+		want := map[string][]byte{}
+		vals := map[string]compress.Codec{}
+		for _, sp := range specs[kind] {
+			w, err := pristine(sp, p)
+			if err != nil {
+				emit(fmt.Sprintf("cfg %s %s %s -", sp, "pristine", sum(p)), "error:pristine "+err.Error())
+				continue
+			}
+			want[sp] = w
+			vals[sp] = codecOfSpec(sp)
+		}
+		for round := 0; round < 3; round++ {
+			order := r.Perm(len(specs[kind]))
+			for _, i := range order {
+				sp := specs[kind][i]
+				if want[sp] == nil {
+					continue
+				}
+				emit(fmt.Sprintf("cfg %s round%d %s %s", sp, round, sum(p), sum(want[sp])), guard(func() string {
+					s, err := compressChunks(vals[sp], p, []int{len(p)})
+					if err != nil {
+						return "error:" + err.Error()
+					}
+					name := kind
+					if strings.HasSuffix(sp, ":1") && kind == "snappy" {
+						name = "snappy-unframed"
+					}
+					d, err := refDecode(name, s)
+					if err != nil {
+						return "error:not readable by the reference decoder: " + err.Error()
+					}
+					return "ok " + sum(d) + " " + sum(s)
+				}))
+			}
+		}
+	}
+}
+
 // readAllBounded is io.ReadAll that gives up on a reader making no progress (a broken reader must cost
 // seconds, not minutes).
 func readAllBounded(r io.Reader) ([]byte, error) {
@@ -621,6 +723,10 @@ func main() {
 		rounds = 6
 	}
 	cs := codecs()
+	if len(os.Args) > 2 && os.Args[1] == "pristine" {
+		pristineMain(os.Args[2])
+		return
+	}
 	stressOnly := len(os.Args) > 1 && os.Args[1] == "stress"
 	if stressOnly {
 		// watchdog: whatever hangs, report what was observed so far
@@ -813,6 +919,8 @@ func main() {
 		} else {
 			stress(r, cs, 24, 40)
 		}
+		// --- cfg: several configurations of one codec kind interleaved
+		configs(r)
 		// --- hist: same stream through pooled objects after disturbances; output bytes and data identical to first use
 		for _, cc := range cs {
 			p := payload(r, 2, 50000+r.Intn(30000))
